@@ -288,7 +288,7 @@ theorem LInv_step (prog : NProg) (s : LSys) (t : Nat) (h : LInv s) : LInv (s.ste
         · subst e
           rw [pend_upd_same s t' _ _ rfl, if_pos rfl]
           simp only [stagePend, List.append_nil] at hgot
-          simp [optPend, stagePend, pendOf, hgot]
+          simp [optPend, pendOf, hgot]
         · have e' : ¬ t = t' := fun c => e c.symm
           rw [pend_upd_other s t t' _ e _ rfl, if_neg e']; exact h.gotOK t'
     | miss1 =>
@@ -388,7 +388,7 @@ theorem LInv_step (prog : NProg) (s : LSys) (t : Nat) (h : LInv s) : LInv (s.ste
         · subst e
           rw [pend_upd_same s t' _ _ rfl, if_pos rfl]
           simp only [stagePend, List.append_nil] at hgot
-          simp [optPend, stagePend, pendOf, hgot]
+          simp [optPend, pendOf, hgot]
         · have e' : ¬ t = t' := fun c => e c.symm
           rw [pend_upd_other s t t' _ e _ rfl, if_neg e']; exact h.gotOK t'
     | hit1 =>
@@ -433,6 +433,18 @@ theorem LInv_step (prog : NProg) (s : LSys) (t : Nat) (h : LInv s) : LInv (s.ste
         · rw [pend_upd_other s t t' _ e _ rfl]
           show upd s.got t _ t' ++ _ = _
           rw [upd_other _ _ _ _ e]; exact h.gotOK t'
+
+/-- between its `lock` and its `unlock` -/
+def inCrit (ops : List NOp) : Bool :=
+  ops == [.mapGet] || ops == nextCode.miss || ops == [.unlock, .ret0] || ops == nextCode.hit || ops == [.unlock, .retAdd]
+
+theorem LInv.excl {s : LSys} (h : LInv s) (t : Nat) (f : LFrame) (hf : s.pcs t = some f) (hc : inCrit f.ops = true) :
+    s.holder = some t := by
+  obtain ⟨st, hops, hh, _, _⟩ := h.thr t f hf
+  apply hh
+  rw [hops] at hc
+  revert hc
+  cases st <;> decide
 
 theorem LInv_run (prog : NProg) (sched : List Nat) : ∀ (s : LSys), LInv s → LInv (s.run nextCode prog sched) := by
   induction sched with
